@@ -71,7 +71,7 @@ def gen_2d(rnd):
 
 def explore_2d(ctx, ex):
     import json
-    hs = [gen_2d(ctx.rnd) for _ in range(ctx.n(150, 4000))]
+    hs = [gen_2d(ctx.rnd) for _ in range(ctx.n(450, 12000))]
     outs = common.run_workers([f"A2|a{i}|{json.dumps(h)}" for i, h in enumerate(hs)], script="worker_array2d.py")
     for h, o in zip(hs, outs):
         ex.evaluations += 1
@@ -106,7 +106,7 @@ def explore(ctx, extended=False, focus=None):
                "element read back: values vs Python lists, V+S correspondence with the model; (b) the same history with other index "
                "values: identical shapes; (c) tiny instances over p=97: in-range read determined, out-of-range index unsatisfiable; "
                "distinct = (history, length, index classes, bitlength)")
-    n = ctx.n(300, 6000) * (3 if extended else 1)
+    n = ctx.n(900, 18000) * (3 if extended else 1)
     cases = corpus_cases("C15") + [progs.array_case(ctx.rnd, f"c15_{i}") for i in range(n)]
     recs = execute_all(cases)
     from .c06 import twin as c06_twin, first_difference
@@ -154,7 +154,7 @@ def explore(ctx, extended=False, focus=None):
             ex.samples.append(r.case.line())
     explore_2d(ctx, ex)
     # (c) witness search on tiny instances
-    small = [small_array_case(ctx.rnd, f"c15s_{i}", oob=(i % 2 == 1)) for i in range(ctx.n(80, 1500))]
+    small = [small_array_case(ctx.rnd, f"c15s_{i}", oob=(i % 2 == 1)) for i in range(ctx.n(240, 4500))]
     srecs = execute_all(small)
     jobs = []; keep = []
     for r in srecs:
